@@ -58,6 +58,34 @@ OPS = [
     ("iter->iter-rev", r"\.iter\(\)\.enumerate\(\)", ".iter().rev().enumerate()"),
     ("skip1", r"\.into_iter\(\)", ".into_iter().skip(1)"),
 ]
+# third batch (--batch 3): operand drops, argument swaps, boundary and iteration-range slips, dropped assignments / exits
+OPS3 = [
+    ("swap-args", r"\((\*?&?\w+(?:\.\w+)*(?:\(\))?), (\*?&?\w+(?:\.\w+)*(?:\(\))?)\)", r"(\2, \1)"),
+    ("drop-conj-left", r"(?<=[ (])!?\*?\w[\w.\[\]]*(?:\([\w&*., ]*\))? && ", ""), ("drop-conj-right", r" && !?\*?\w[\w.\[\]]*(?:\([\w&*., ]*\))?(?=[ ){;]|$)", ""),
+    ("drop-disj-left", r"(?<=[ (])!?\*?\w[\w.\[\]]*(?:\([\w&*., ]*\))? \|\| ", ""), ("drop-disj-right", r" \|\| !?\*?\w[\w.\[\]]*(?:\([\w&*., ]*\))?(?=[ ){;]|$)", ""),
+    ("if-true", r"\bif (?!let )([^{]+) \{$", "if true {"), ("if-false", r"\bif (?!let )([^{]+) \{$", "if false {"),
+    ("if-negate", r"\bif (?!let )([^{]+) \{$", r"if !(\1) {"),
+    ("ge->eq", r" >= ", " == "), ("le->eq", r" <= ", " == "), ("eq->ge", r" == (?=\w)", " >= "), ("eq->le", r" == (?=\w)", " <= "),
+    ("iter-take1", r"\.iter\(\)", ".iter().take(1)"), ("iter-skip1", r"\.iter\(\)", ".iter().skip(1)"),
+    ("pluseq1->2", r" \+= 1\b", " += 2"), ("pluseq->minuseq", r" \+= ", " -= "),
+    ("range-incl", r"(?<=[\w)])\.\.(?=[\w(])", "..="), ("range-from1", r"\b0\.\.", "1.."),
+    ("drop-rev", r"\.rev\(\)", ""), ("add-rev", r"\.enumerate\(\)", ".rev().enumerate()"),
+    ("Var-plus1", r"\bVar\((\w+)\)", r"Var(\1 + 1)"), ("idx-plus1", r"\[(\w+)\]", r"[\1 + 1]"), ("idx-zero", r"\[(\w*[a-z]\w*)\]", "[0]"),
+    ("filter->noop", r"\.filter\(\|[^|]*\| ", r".filter(|_| true || "), ("filter_map-some", r"\.unwrap_or\(", ".unwrap_or_default().max("),
+    ("clone->default", r"\.clone\(\);$", ".clone(); /*noop*/"),
+    ("Ok->Err-ret", r"\bOk\(\(\)\)", "Err(())"),
+    ("then-some-none", r"\.then_some\(", ".then_some(()).and(None::<()>).map(|_| "),
+    ("unwrap_or_else", r"\.unwrap_or\(true\)", ".unwrap_or(false)"),
+    ("len->len-1", r"\.len\(\)(?! [-+=])", ".len().saturating_sub(1)"),
+    ("first->last", r"\.first\(\)", ".last()"), ("last->first", r"\.last\(\)", ".first()"),
+    ("min_by->max_by", r"\.min_by\(", ".max_by("), ("max_by->min_by", r"\.max_by\(", ".min_by("),
+    ("min_by_key->max_by_key", r"\.min_by_key\(", ".max_by_key("), ("max_by_key->min_by_key", r"\.max_by_key\(", ".min_by_key("),
+    ("then->else-cmp", r"Ordering::Less", "Ordering::Greater"), ("cmp-swap", r"Ordering::Greater", "Ordering::Less"),
+    ("sort->noop", r"\.sort_unstable\(\);", ".len();"), ("dedup-drop", r"\.dedup\(\);", ".len();"),
+    ("contains->not", r"(?<!!)(\b[\w.]+\.contains\()", r"!\1"),
+    ("insert_one->noop-hash", r"hash_password\(([^,]+), ", r"hash_password(b\"\", "),
+]
+STMT_DROP3 = re.compile(r"^\s*(\*?[\w.\[\]]+ (=|\+=|-=|\|=|&=) .*;|break;|continue;|return;|return [^;]*;)\s*$")
 MASK_STRINGS_EXCEPT = ("find_one->find_one-nofilter",)
 STMT_DROP = re.compile(r"^\s*[\w.\[\]*&()]+\.(push|insert|remove|retain|clear|append|extend|send|sort\w*|fix_import|regenerate_indizes|seed|add_ng|pop)\(.*\);\s*$")
 
@@ -85,7 +113,10 @@ def code_lines(path):
     return out
 
 
-def gen(files, out):
+def gen(files, out, batch=1):
+    global OPS, STMT_DROP
+    if batch == 3:
+        OPS, STMT_DROP = OPS3, STMT_DROP3
     n = 0
     with open(out, "w") as f:
         for rel in files:
@@ -178,7 +209,7 @@ def run(args):
     os.makedirs(scratch, exist_ok=True)
     muts = [json.loads(l) for l in open(os.path.join(scratch, args.mutants))]
     done = set()
-    res_path = os.path.join(scratch, "results.jsonl")
+    res_path = os.path.join(scratch, args.results)
     if os.path.exists(res_path):
         for l in open(res_path):
             done.add(json.loads(l)["id"])
@@ -223,8 +254,8 @@ def triage(args):
     """runs the dynamic triage oracle (selftest/triage/oracle.rs; brute-force references on random small inputs) on every SILENT lib survivor:
     oracle fails -> behaviour changed -> a GAP of the static rules; oracle passes -> probably equivalent (or needs inputs the oracle does not generate)"""
     scratch = args.scratch
-    res = [json.loads(l) for l in open(os.path.join(scratch, "results.jsonl"))]
-    out_path = os.path.join(scratch, "triage.jsonl")
+    res = [json.loads(l) for l in open(os.path.join(scratch, args.results))]
+    out_path = os.path.join(scratch, "triage-" + args.results)
     done = set()
     if os.path.exists(out_path):
         done = set(json.loads(l)["id"] for l in open(out_path))
@@ -270,7 +301,7 @@ def triage(args):
 
 
 def report(args):
-    res = [json.loads(l) for l in open(os.path.join(args.scratch, "results.jsonl"))]
+    res = [json.loads(l) for l in open(os.path.join(args.scratch, args.results))]
     tri = {}
     tp = os.path.join(VERIF, "selftest", "sweep_triage.json")
     if os.path.exists(tp):
@@ -295,11 +326,13 @@ def main():
     ap.add_argument("--limit", type=int, default=0)
     ap.add_argument("--mutants", default="mutants.jsonl")
     ap.add_argument("--match", nargs="*", default=[])
+    ap.add_argument("--batch", type=int, default=1, help="gen: operator batch (1 = original operators, 3 = third batch)")
+    ap.add_argument("--results", default="results.jsonl")
     ap.add_argument("--reported", action="store_true", help="triage: also run the oracle on reported mutants (reported + oracle-pass = candidate false alarm)")
     a = ap.parse_args()
     os.makedirs(a.scratch, exist_ok=True)
     if a.cmd == "gen":
-        gen(a.files, os.path.join(a.scratch, a.mutants))
+        gen(a.files, os.path.join(a.scratch, a.mutants), a.batch)
     elif a.cmd == "run":
         run(a)
     elif a.cmd == "triage":
